@@ -4,7 +4,9 @@ import (
 	"encoding/json"
 	"errors"
 	"fmt"
+	"math/big"
 	"reflect"
+	"strconv"
 	"strings"
 )
 
@@ -152,6 +154,45 @@ func (s Set) IsSubSet(subset Set) bool {
 	return true
 }
 
+/*
+exactNumbers replaces every json.Number in the passed decoded JSON value by the
+float64 that encoding/json yields by default, unless it is an integer that is
+not written back digit by digit from that float64 (integers beyond 53 bits):
+such a number stays a json.Number, so that it is not silently replaced by a
+neighbouring value.
+*/
+func exactNumbers(value any) (any, error) {
+	switch v := value.(type) {
+	case json.Number:
+		f, err := v.Float64()
+		if err != nil {
+			return nil, err
+		}
+		if _, isInt := new(big.Int).SetString(v.String(), 10); isInt &&
+			strconv.FormatFloat(f, 'f', -1, 64) != v.String() {
+			return v, nil
+		}
+		return f, nil
+	case []any:
+		for i := range v {
+			exact, err := exactNumbers(v[i])
+			if err != nil {
+				return nil, err
+			}
+			v[i] = exact
+		}
+	case map[string]any:
+		for k := range v {
+			exact, err := exactNumbers(v[k])
+			if err != nil {
+				return nil, err
+			}
+			v[k] = exact
+		}
+	}
+	return value, nil
+}
+
 func loadPayload(payloadBytes []byte) (any, error) {
 	var payload map[string]any
 	if err := json.Unmarshal(payloadBytes, &payload); err != nil {
@@ -166,8 +207,21 @@ func loadPayload(payloadBytes []byte) (any, error) {
 
 		decoder := json.NewDecoder(strings.NewReader(string(payloadBytes)))
 		decoder.DisallowUnknownFields()
+		// Numbers in the opaque byproducts and environment values are decoded
+		// as json.Number first, so that integers a float64 cannot hold exactly
+		// are kept (and signed, verified and dumped) as they are written
+		decoder.UseNumber()
 		if err := decoder.Decode(&link); err != nil {
 			return nil, fmt.Errorf("error decoding payload: %w", err)
+		}
+		for _, opaque := range []map[string]any{link.ByProducts, link.Environment} {
+			for k, v := range opaque {
+				exact, err := exactNumbers(v)
+				if err != nil {
+					return nil, fmt.Errorf("error decoding payload: %w", err)
+				}
+				opaque[k] = exact
+			}
 		}
 
 		return link, nil
